@@ -4,5 +4,5 @@
 // them that is neither under contract nor pinned by name still makes this unit undecided, which sends the check to the
 // property's bounded sweep of the real code
 //@pinfile file=lrpar/src/lib/parser.rs sha=fb1aabfb1f1a4952
-//@pinfile file=lrpar/src/lib/cpctplus.rs sha=6a36380e413ea50c
+//@pinfile file=lrpar/src/lib/cpctplus.rs sha=73c6fbd2e7b2c51e
 //@use prelude/tail.rs
